@@ -277,6 +277,9 @@ func Main(prop string, rule string, plan Plan, casesQuick int, corpus [][]string
 
 		return
 	}
+	if prop == "C01" && twinEnabled {
+		x.ValidatorRegistrationCorpus()
+	}
 	for _, c := range corpus {
 		x.Replay(c)
 	}
